@@ -150,6 +150,13 @@ int main(int argc, char** argv)
                 else { PolarGrid tmp = g; PolarGrid snap = std::move(tmp); tmp = other; g = other; dump_grid(snap, split, rng, false, 3); }
             }
             else dump_grid(g, split, rng, c % 4 == 0, 3);
+            if (c % 6 == 1) {
+                // the PARAMETRIC constructor (uniform / anisotropic generation, then divideBy2 refinements): the index queries of a grid that
+                // was refined after its angular division was first set up
+                const int nr_exp = rng.range(2, 3), nt_exp = rng.pick(std::vector<int>{-1, 2, 3}), aniso = rng.range(0, 1), div = rng.range(0, 2);
+                PolarGrid gp(rng.pick(std::vector<double>{1e-5, 1e-2, 0.3}), 1.3, nr_exp, nt_exp, 0.66, aniso < nr_exp ? aniso : 0, div);
+                if (gp.numberOfNodes() <= 4000) dump_grid(gp, std::nullopt, rng, false, 2);
+            }
         }
         catch (const std::exception& e) {
             printf("G-throw nr=%d nt=%d %s\n", nr, nt, e.what());
